@@ -41,6 +41,8 @@ type FullCfg struct {
 	// SharedOpts, when set, is the one session.Opts object handed to every session of the acceptor (the way the
 	// library's examples do it); otherwise every session gets an object of its own.
 	SharedOpts *session.Opts
+	// Location is Opts.Location of the sessions of this rig (the zone their SendingTime is written in; "" = UTC).
+	Location string
 }
 
 // Link is one connection with its handler and session.
@@ -125,6 +127,7 @@ func StartFull(cfg FullCfg) (*Full, error) {
 			opts := cfg.SharedOpts
 			if opts == nil {
 				opts = Opts()
+				opts.Location = cfg.Location
 			}
 			s, err := session.NewAcceptorSession(opts, dh, &session.LogonSettings{
 				LogonTimeout: logonTimeout(cfg), HeartBtLimits: cfg.Limits, CloseTimeout: cfg.CloseTimeout,
@@ -163,7 +166,9 @@ func StartFull(cfg FullCfg) (*Full, error) {
 		hb = 30
 	}
 	cs, ms := f.stores()
-	s, err := session.NewInitiatorSession(h, Opts(), &session.LogonSettings{
+	iopts := Opts()
+	iopts.Location = cfg.Location
+	s, err := session.NewInitiatorSession(h, iopts, &session.LogonSettings{
 		TargetCompID: PeerID, SenderCompID: LibID, HeartBtInt: hb, EncryptMethod: "0",
 		Username: "user", Password: "pw", CloseTimeout: cfg.CloseTimeout, LogonTimeout: logonTimeout(cfg),
 	}, cs, ms)
